@@ -153,7 +153,7 @@ def run(ctx):
                 ctx.violation('old-reader-crash', 'old reader/printer crashed on a buffer of the extended schema: %s' % a[:300], rep); continue
             da, pa = re.match(r'V 0 D (.*) P (-?\d+)$', a).groups()
             db, pb = re.match(r'V 0 D (.*) P (-?\d+)$', b).groups()
-            db = re.sub(r'\w+\.\w+!=[+-][0-9a-f]*;', '', db)
+            db = re.sub(r'\w+\.\w+!=[+-][0-9a-f]*;', '', db); db = re.sub(r'\w+\.\w+!=[~?];', '', db)
             if int(pa) < 0:
                 ctx.violation('old-printer-error', 'old JSON printer reports an error on a buffer of the extended schema (%s)' % pa, rep)
             if da != db:
@@ -183,6 +183,10 @@ def run(ctx):
                 ctx.violation('new-reader-crash', 'new reader/printer crashed on a buffer of the old schema: %s' % b[:300], rep); continue
             da, pa = re.match(r'V 0 D (.*) P (-?\d+)$', a).groups()
             db, pb = re.match(r'V 0 D (.*) P (-?\d+)$', b).groups()
+            # new NON-scalar fields of B read from an old buffer: every accessor reports them absent
+            for tn, fn in re.findall(r'(\w+)\.(\w+)!=\?;', db):
+                ctx.violation('new-field-not-absent', 'new code reads the new non-scalar field %s.%s of an old buffer as present / non-null' % (tn, fn), rep)
+            db = re.sub(r'\w+\.\w+!=[~?];', '', db)
             # new scalar fields of B read from an old buffer: absent, and equal to the declared default bit for bit
             for tn, fn, pres, hx in re.findall(r'(\w+)\.(\w+)!=([+-])([0-9a-f]*);', db):
                 fdef = [f for t in B['tables'] if t['name'] == tn for f in t['fields'] if f['name'] == fn][0]
